@@ -15,6 +15,7 @@ pub mod c07;
 pub mod c08;
 pub mod c10;
 pub mod c11;
+pub mod c12;
 pub mod c13;
 pub mod c15;
 pub mod c18;
@@ -34,6 +35,7 @@ pub fn run_check(id: &str, ctx: &Ctx) -> Option<Report> {
         "C08" => c08::run(ctx),
         "C10" => c10::run(ctx),
         "C11" => c11::run(ctx),
+        "C12" => c12::run(ctx),
         "C13" => c13::run(ctx),
         "C15" => c15::run(ctx),
         "C18" => c18::run(ctx),
@@ -65,6 +67,7 @@ pub fn own_clauses(id: &str) -> &'static [&'static str] {
         "C06" => c06::OWN,
         "C07" => c07::OWN,
         "C08" => c08::OWN,
+        "C12" => c12::OWN,
         "C13" => c13::OWN,
         "C15" => c15::OWN,
         "C18" => c18::OWN,
